@@ -60,6 +60,7 @@ CHECKS = {
             {"pkg": "core", "run": "^TestC02NestedCall$", "quick": 300, "thorough": 10000, "shards_thorough": 4},
             {"pkg": "core", "run": "^TestC02WriteQueue$", "quick": 200, "thorough": 8000, "shards_thorough": 4},
             {"pkg": "core", "run": "^TestC02HTTPReplies$", "quick": 400, "thorough": 20000, "shards_thorough": 4},
+            {"pkg": "core", "run": "^TestC02WebsocketReplies$", "quick": 300, "thorough": 10000, "shards_thorough": 4},
             {"pkg": "core", "run": "^TestC02CutSweep$", "quick": 1, "thorough": 1, "rapid": False},
         ],
     },
@@ -68,6 +69,7 @@ CHECKS = {
         "assumptions": ["transport write faults during the reply are outside the property's quantifier and are not injected"],
         "runs": [
             {"pkg": "core", "run": "^TestC03Dispatch$", "quick": 1500, "thorough": 60000, "shards_thorough": 8},
+            {"pkg": "core", "run": "^TestC03HTTPTypes$", "quick": 500, "thorough": 20000, "shards_thorough": 4},
         ],
     },
     "C04": {
